@@ -8,6 +8,7 @@ Open Scope R_scope.
 Theorem run_refrac_bounds : forall (c : cls) (p : params RN),
   ctor_ok RN c p = true ->
   forall (ops : list (op RN)) (s : nstate RN),
+  Forall (op_bounded p) ops ->
   bounded p (cols RN s) ->
   Forall (fun r : option (list (list bool)) * nstate RN => bounded p (cols RN (snd r)))
     (run RN c p s ops).
